@@ -681,12 +681,108 @@ def _covers_all(residuals):
     return bool(yes) and bool(no) and _covers_all(yes) and _covers_all(no)
 
 
+def _loops_of(fn):
+    """id(statement) -> tuple of ids of the enclosing loops"""
+    out = {}
+
+    def walk(body, loops):
+        for st in body:
+            out[id(st)] = loops
+            if isinstance(st, (ast.For, ast.While, ast.AsyncFor)):
+                walk(st.body, loops + (id(st),))
+                walk(st.orelse, loops)
+            elif isinstance(st, ast.If):
+                walk(st.body, loops)
+                walk(st.orelse, loops)
+            elif isinstance(st, (ast.With, ast.AsyncWith)):
+                walk(st.body, loops)
+            elif isinstance(st, ast.Try):
+                for b in [st.body, st.orelse, st.finalbody] + [h.body for h in st.handlers]:
+                    walk(b, loops)
+    walk(fn.body, ())
+    return out
+
+
+def _fresh_uci(callnode):
+    return any(isinstance(a, ast.Call) and unp(a) == 'self._prss_uci()' for a in callnode.args)
+
+
+def zero_sharing_flows(fn, stmts, calls):
+    """Freshness of zero sharings: every generated sharing of zero (one call with its own _prss_uci()) may mask
+    exactly ONE opening.  Returns ({site index: [generation line, ...]}, {generation line: reason it is reused}).
+    Raises Unclassified on a use of a zero sharing that cannot be followed."""
+    loops = _loops_of(fn)
+    defs = []           # (name, stmt)
+    for st, _ in stmts:
+        if isinstance(st, ast.Assign) and isinstance(st.value, ast.Call) and \
+                isinstance(st.value.func, ast.Attribute) and st.value.func.attr in ZERO_SHARING:
+            tg = targets_of(st)
+            if len(tg) != 1:
+                raise Unclassified('zero sharing assigned to %r' % tg)
+            if not _fresh_uci(st.value):
+                raise Unclassified('zero sharing without its own self._prss_uci(): %s' % unp(st))
+            defs.append((tg[0], st))
+    znames = {n for n, _ in defs}
+    flows = {}          # generation line -> set of site indices
+    reused = {}
+
+    def opening_of(W, line):
+        for i, c in enumerate(calls):
+            if c.lineno >= line and c.args and isinstance(c.args[0], ast.Name) and c.args[0].id == W:
+                return i
+        raise Unclassified('variable %r masked by a zero sharing at line %d is not opened afterwards' % (W, line))
+
+    for st, _ in stmts:
+        if any(st is d for _, d in defs):
+            continue
+        if isinstance(st, (ast.If, ast.For, ast.While, ast.AsyncFor, ast.With, ast.AsyncWith, ast.Try)):
+            continue        # compound statements: their simple statements are listed separately
+        direct = [n for n in ast.walk(st) if isinstance(n, ast.Call) and isinstance(n.func, ast.Attribute)
+                  and n.func.attr in ZERO_SHARING]
+        used = {n.id for n in ast.walk(st) if isinstance(n, ast.Name) and n.id in znames and isinstance(n.ctx, ast.Load)}
+        if not direct and not used:
+            continue
+        tg = targets_of(st)
+        ok_shape = (isinstance(st, ast.AugAssign) and isinstance(st.op, ast.Add)) or \
+                   (isinstance(st, ast.Assign) and is_product_expr(st.value))
+        if len(tg) != 1 or not ok_shape:
+            raise Unclassified('use of a zero sharing not understood: %s' % unp(st))
+        site = opening_of(tg[0], st.lineno)
+        for d in direct:
+            if not _fresh_uci(d):
+                raise Unclassified('zero sharing without its own self._prss_uci(): %s' % unp(st))
+            flows.setdefault(st.lineno, set()).add(site)
+        for nm in used:
+            cand = [d for n, d in defs if n == nm and d.lineno < st.lineno]
+            if not cand:
+                raise Unclassified('zero sharing %r used before it is generated: %s' % (nm, unp(st)))
+            d = cand[-1]
+            flows.setdefault(d.lineno, set()).add(site)
+            if any(l not in loops.get(id(d), ()) for l in loops.get(id(st), ())):
+                reused[d.lineno] = 'generated outside a loop in which it masks an opening (line %d)' % st.lineno
+    for g, sites in flows.items():
+        if len(sites) > 1:
+            reused[g] = 'masks %d different openings' % len(sites)
+    by_site = {}
+    for g, sites in flows.items():
+        for i in sites:
+            by_site.setdefault(i, []).append(g)
+    return by_site, reused
+
+
 def product_rows(repo):
     rows, errors = [], []
     for mod, rel in MODULES.items():
         tree = ast.parse(open(os.path.join(repo, rel)).read())
         for fn, calls in internal_sites(tree):
             stmts = stmts_with_cond(fn)
+            if not any(kw.arg == 'threshold' for c in calls for kw in c.keywords):
+                continue
+            try:
+                z_by_site, z_reused = zero_sharing_flows(fn, stmts, calls)
+            except Unclassified as exc:
+                errors.append({'site': '%s.%s' % (mod, fn.name), 'line': fn.lineno, 'error': 'zero-sharing flow unclassified: %s' % exc})
+                continue
             for i, call in enumerate(calls):
                 if not any(kw.arg == 'threshold' for kw in call.keywords):
                     continue
@@ -726,6 +822,10 @@ def product_rows(repo):
                     if not product:
                         raise Unclassified('no defining product found for opened variable %r' % V)
                     how = 'RAlways' if rer and _covers_all(rer) else ('RConditional' if rer else 'RNever')
+                    stale = ['zero sharing generated at line %d %s' % (g, z_reused[g]) for g in z_by_site.get(i, []) if g in z_reused]
+                    if stale:
+                        how = 'RReused'
+                        conds = stale
                     rows.append({'site': key, 'func': fn.name, 'line': call.lineno, 'opened': V, 'product': True, 'rerand': how,
                                  'threshold': unp([kw.value for kw in call.keywords if kw.arg == 'threshold'][0]),
                                  'conditions': sorted(set(c for c in conds if c))})
